@@ -1467,6 +1467,31 @@ pub mod verif {
         unsafe { super::ffi::list_get(out.cast(), erased.clone(), idx) }
     }
 
+    /// The script-side `contains` / `index` (`ErasedList::contains_owned`,
+    /// `ErasedList::index_owned`) applied to a typed list: `item` is passed by
+    /// value the way the runtime passes it (a pointer to a value the callee
+    /// takes ownership of).
+    pub fn contains_owned<T: Value>(this: &List<T>, item: T) -> bool {
+        let mut item = std::mem::ManuallyDrop::new(item);
+        // SAFETY: List<T> is a transparent wrapper around ErasedList
+        let erased: &super::ErasedList =
+            unsafe { &*(this as *const List<T> as *const super::ErasedList) };
+        let ptr = std::ptr::NonNull::from(&mut *item).cast();
+        // SAFETY: the item has the element type and is not used afterwards
+        unsafe { erased.contains_owned(ptr) }
+    }
+
+    /// See [`contains_owned`]
+    pub fn index_owned<T: Value>(this: &List<T>, item: T) -> Option<usize> {
+        let mut item = std::mem::ManuallyDrop::new(item);
+        // SAFETY: List<T> is a transparent wrapper around ErasedList
+        let erased: &super::ErasedList =
+            unsafe { &*(this as *const List<T> as *const super::ErasedList) };
+        let ptr = std::ptr::NonNull::from(&mut *item).cast();
+        // SAFETY: the item has the element type and is not used afterwards
+        unsafe { erased.index_owned(ptr) }
+    }
+
     /// A `List<u64>` in the state "length == capacity" holding `vals`, built
     /// directly instead of by `vals.len()` pushes. Only lengths that are
     /// growth boundaries (4, 8, 16, ..) are accepted, because only those are
